@@ -142,6 +142,10 @@ def show(t, depth=0):
         return "_%d" % t[1]
     if k == "val":
         return show(t[1], d)
+    if k == "static":
+        return "static:" + t[1]
+    if k == "mem":
+        return "mem[%d bytes]" % len(t[1])
     if k == "lfield":
         return "%s.%s" % (show(t[1], d), t[3] if t[3] is not None else t[2])
     if k == "discr":
@@ -261,6 +265,11 @@ class Engine:
                 for s in blocks[b]["stmts"]:
                     if s["k"] == "assign":
                         a.add(s["p"]["l"])
+                        rv = s["rv"]
+                        if rv["k"] in ("ref", "rawptr") and (rv.get("mut") or "Mut" in rv.get("kind", "")):
+                            pr = rv["p"]["proj"]
+                            if not pr or pr[0]["k"] != "deref":
+                                a.add(rv["p"]["l"])
                 t = blocks[b]["term"]
                 if t["k"] == "call":
                     a.add(t["dest"]["l"])
@@ -282,6 +291,10 @@ class Engine:
             return ("unit",)
         if c.get("str") is not None:
             return ("str", c["str"])
+        if c.get("static_ref"):
+            return ("ref", False, ("static", c["static_ref"]))
+        if c.get("mem_bytes") is not None:
+            return ("ref", False, ("mem", tuple(c["mem_bytes"]), ty))
         if c.get("param"):
             return ("cg", c["param"])
         if c.get("def"):
